@@ -789,7 +789,16 @@ class Phonopy:
                     )
                     raise RuntimeError(msg)
 
-        self._force_constants = force_constants
+        if (
+            isinstance(force_constants, np.ndarray)
+            and force_constants.dtype == np.dtype("double")
+            and force_constants.flags.aligned
+            and force_constants.flags.c_contiguous
+        ):
+            self._force_constants = force_constants
+        else:
+            # C routines (symmetrization, cutoff, ...) assume this layout.
+            self._force_constants = np.array(force_constants, dtype="double", order="C")
         if self._primitive.masses is not None:
             self._set_dynamical_matrix()
 
